@@ -9,6 +9,7 @@ import (
 	"sync"
 	"sync/atomic"
 	"testing"
+	"time"
 
 	abcicli "github.com/tendermint/tendermint/abci/client"
 	abciserver "github.com/tendermint/tendermint/abci/server"
@@ -57,6 +58,22 @@ var latencyChoices = []int{0, 0, 1, 1, 20, 60, 200, 600}
 type asyncEnv struct {
 	cli  abcicli.Client
 	stop func()
+}
+
+// stableGoroutines waits (briefly, bounded) until the goroutine count stops moving: the connection goroutines of
+// the socket client and server start and wind down asynchronously and must not be mistaken for v1's recheck
+// goroutines by the baseline comparison in quiesce. (The socket server leaves one goroutine behind per
+// connection; that one is stable and harmless.)
+func stableGoroutines() {
+	deadline := time.Now().Add(20 * time.Millisecond)
+	for same, last := 0, -1; same < 5 && time.Now().Before(deadline); {
+		time.Sleep(100 * time.Microsecond)
+		if n := runtime.NumGoroutine(); n == last {
+			same++
+		} else {
+			same, last = 0, n
+		}
+	}
 }
 
 func startSocketApp(a abci.Application) (*asyncEnv, error) {
@@ -118,6 +135,9 @@ func runAsync(rt *rapid.T) {
 	}
 	s := newSUTOn(c, env.cli, nil, nil)
 	s.stop = func() {} // env.stop tears the client down
+	if v1 {
+		stableGoroutines()
+	}
 	base := runtime.NumGoroutine()
 	r := &run{t: rt, c: c, a: a, s: s, m: &model{c: c}}
 	sureRemembered := c.CacheSize >= 64 // the cache never has to evict: 12 distinct txs
@@ -268,6 +288,18 @@ func runAsync(rt *rapid.T) {
 		}
 		if v1 {
 			r.quiesce(base)
+			// belt and braces before anything is torn down under v1's own goroutines: the application has seen
+			// no further call for a while
+			for quiet, last := 0, -1; quiet < 4; {
+				time.Sleep(250 * time.Microsecond)
+				n1, n2, _ := a.counts()
+				if n1+n2 == last {
+					quiet++
+				} else {
+					quiet, last = 0, n1+n2
+				}
+			}
+			r.quiesce(base)
 		}
 		logf("burst [%s] then commit h=%d block %q (%d of the burst's requests unanswered at Lock) -> pool %q",
 			strings.TrimSpace(bs.String()), height, cs.String(), unanswered, name(pooled(), a.alpha))
@@ -277,20 +309,30 @@ func runAsync(rt *rapid.T) {
 		if hit {
 			inflightHits++
 		}
+		// committed successfully = every occurrence of the tx in the block succeeded (a failed occurrence makes
+		// the cache forget it again unless keep-invalid-txs-in-cache is set)
+		allOK := func(i int) bool {
+			for k, j := range block {
+				if j == i && !oks[k] {
+					return false
+				}
+			}
+			return true
+		}
 		lastBlock = nil
-		for k, i := range block {
-			if oks[k] {
+		for _, i := range block {
+			if allOK(i) && !contains(lastBlock, i) {
 				lastBlock = append(lastBlock, i)
 			}
 		}
 
 		// ---- gone
-		for k, i := range block {
+		for _, i := range block {
 			if !inPool(txs[i]) {
 				continue
 			}
 			if v1 {
-				if !(oks[k] && sureRemembered) {
+				if !(allOK(i) && sureRemembered) {
 					continue // a v1 call may have begun after Unlock and the cache need not remember this tx
 				}
 				if lib.IsKnown(idV1Outside) {
